@@ -403,6 +403,72 @@ _IMG_PEEL = ("Deref::deref", "Vec::<T, A>::as_slice", "Iterator::collect", "AsRe
 _IMG_ITER = ("slice::<impl [T]>::iter", "IntoIterator::into_iter", "Iterator::copied", "Iterator::cloned", "Iterator::enumerate", "Iterator::map")
 
 
+def counted_exit(ev, h, d, want_init=None, want_step=None):
+    """`while i < bound`: the tested value is a loop-carried counter that every way round the loop increases by a positive
+    constant, and the bound does not change inside the loop - the loop runs at most bound - init times."""
+    x = d
+    while x.op in ("ref", "deref") or (x.op == "un" and x.a[0] == "Not"):
+        x = x.a[1] if x.op == "un" else x.a[0]
+    if not (x.op == "bin" and x.a[0] in ("Lt", "Le", "Ne", "Gt", "Ge")):
+        return False
+    a, b = x.a[1], x.a[2]
+    if x.a[0] in ("Gt", "Ge"):
+        a, b = b, a
+    a = B.peel(a)
+    if not (a.op == "loop" and a.a[0] == h):
+        return False
+    if any(t.op == "loop" and t.a[0] == h for t in subterms(b)) or any(t.op in ("mutcall",) for t in subterms(b)):
+        return False
+    if want_init is not None and B._const_int(a.a[2]) != want_init:
+        return False
+    step = ev.loop_step.get((h, a.a[1]))
+    if step is None:
+        return False
+    alts = list(step.a[0]) if step.op == "phi" else [step]
+    for st in alts:
+        st = B.peel(st)
+        if st.op == "field" and st.a[1] == "0" and st.a[0].op == "bin" and st.a[0].a[0] == "AddWithOverflow":
+            st = T("bin", "Add", st.a[0].a[1], st.a[0].a[2])
+        if not (st.op == "bin" and st.a[0] in ("Add", "AddUnchecked")):
+            return False
+        u, v = B.peel(st.a[1]), B.peel(st.a[2])
+        c = B._const_int(v) if u is a or u == a else (B._const_int(u) if (v is a or v == a) else None)
+        if c is None or c <= 0 or (want_step is not None and c != want_step):
+            return False
+    return (a, b, x.a[0])
+
+
+
+
+def _len_subject(t):
+    """x of `x.len()` (slice / Vec), else None."""
+    t = B.peel(t)
+    if t.op == "call" and B.cname(t) in ("slice::<impl [T]>::len", "Vec::<T, A>::len") and len(t.a[1]) == 1:
+        return B.peel(t.a[1][0])
+    if t.op == "len":
+        return B.peel(t.a[0])
+    return None
+
+
+def _mentions_index(elem, src, counter, next_site=None):
+    """The element expression reads `src[i]` where i is the loop counter / the value the range iterator yielded."""
+    s0 = strip_sites(src)
+    for x in subterms(elem):
+        base = ix = None
+        if x.op == "index":
+            base, ix = x.a[0], x.a[1]
+        elif x.op == "call" and B.cname(x) in ("Index::index", "IndexMut::index_mut") and len(x.a[1]) == 2:
+            base, ix = x.a[1][0], x.a[1][1]
+        if base is None or strip_sites(B.peel(base)) != s0:
+            continue
+        ixp = B.peel(ix)
+        if counter is not None and (ixp is counter or strip_sites(ixp) == strip_sites(counter)):
+            return True
+        if next_site is not None and ixp.op == "field" and ixp.a[1] == "0" and ixp.a[0].op == "downcast" and B.peel(ixp.a[0].a[0]).op == "call" and B.cname(B.peel(ixp.a[0].a[0])) == "Iterator::next":
+            return True
+    return False
+
+
 def image_source(P, fn, ev, t):
     """If `t` denotes a list that holds exactly one entry per element of another list - through map/collect
     pipelines or through a loop that pushes exactly once on every iteration - return (source term, steps);
@@ -437,12 +503,42 @@ def image_source(P, fn, ev, t):
                 if len(pushes) != 1 or not cfg.dominates(pushes[0], src):
                     return None, "loop at bb%d does not push exactly once on every iteration (pushes at %s)" % (h, pushes)
                 nexts = [b for b in body if b in ev.sites and ev.sites[b].callee[0] == "Iterator::next"]
+                elem = ev.sites[pushes[0]].args[1]
+                if not nexts:
+                    # `while k < x.len() { v.push(f(x[k])); k += 1 }` with k starting at 0
+                    cnt = None
+                    for b_ in body:
+                        tt = fn.blocks[b_]["term"]
+                        if tt["k"] == "switch" and any(x_ not in body for x_ in [y for _, y in tt["arms"]] + [tt["otherwise"]]):
+                            d_ = ev.switch.get(b_)
+                            r_ = counted_exit(ev, h, d_, want_init=0, want_step=1) if d_ is not None else False
+                            if r_ and r_[2] == "Lt":
+                                cnt = r_
+                    if cnt is None:
+                        return None, "loop at bb%d has neither an iterator nor a 0..len counter" % h
+                    src_ = _len_subject(cnt[1])
+                    if src_ is None or not _mentions_index(elem, src_, cnt[0]):
+                        return None, "loop at bb%d: the pushed element is not built from x[k] of the list whose length bounds k" % h
+                    found = src_
+                    steps.append("index-loop@bb%s" % header)
+                    continue
                 if len(nexts) != 1:
                     return None, "loop at bb%d has %d iterator advances" % (h, len(nexts))
                 it = B.peel(ev.sites[nexts[0]].args[0])
                 if it.op != "loop":
                     return None, "loop iterator is not loop-carried"
                 found = it.a[2]
+                rng = B.peel(found)
+                while rng.op == "call" and B.cname(rng) == "IntoIterator::into_iter" and len(rng.a[1]) == 1:
+                    rng = B.peel(rng.a[1][0])
+                if rng.op == "agg" and rng.a[0][0] == "adt" and rng.a[0][1] == "Range" and len(rng.a[1]) == 2:
+                    # `for i in 0..x.len() { v.push(f(x[i])) }`
+                    src_ = _len_subject(rng.a[1][1]) if B._const_int(rng.a[1][0]) == 0 else None
+                    ix_ = T("field", T("downcast", ev.sites[nexts[0]].value, "Some"), "0")
+                    if src_ is None or not _mentions_index(elem, src_, None, next_site=ev.sites[nexts[0]]):
+                        return None, "loop at bb%d ranges over indices but the pushed element is not built from x[i] of the list whose length bounds i" % h
+                    found = src_
+                    steps.append("index-range@bb%s" % header)
             if found is None:
                 return None, "no loop with header bb%s" % header
             steps.append("push-loop@bb%s" % header)
